@@ -182,20 +182,38 @@ Proof.
     + intros g1 Hg1. rewrite Hs in Hg1. injection Hg1 as ->. auto.
 Qed.
 
+Lemma walk_cons : forall k w x f o n rest,
+  walk (S k) w x f o (n :: rest) =
+  match obj_at w f o with
+  | Some (Group _ ls) =>
+      match assoc n ls with
+      | None => Missing (negb x && negb (is_nil rest))
+      | Some (Hard o') => walk k w x f o' rest
+      | Some (Soft q) => walk k w x f O (q ++ rest)
+      | Some (Ext f' q) => if file_exists w f' then walk k w true f' O (q ++ rest) else Missing false
+      end
+  | _ => Missing (negb x)
+  end.
+Proof. reflexivity. Qed.
+Lemma walk_nil : forall k w x f o, walk (S k) w x f o [] = Found f o.
+Proof. reflexivity. Qed.
+
 Local Transparent FUEL.
+Lemma FUEL_SS : FUEL = S (S 62).
+Proof. reflexivity. Qed.
+Local Opaque FUEL.
 Lemma resolve_cells_hard : forall w f a0 ls0 g0,
   obj_at w f 0 = Some (Group a0 ls0) -> assoc "cells"%string ls0 = Some (Hard g0) ->
   resolve w f ["cells"%string] = Found f g0.
 Proof.
-  intros w f a0 ls0 g0 E0 Hs. unfold resolve. change FUEL with (S (S 62)). simpl. now rewrite E0, Hs.
+  intros w f a0 ls0 g0 E0 Hs. unfold resolve. rewrite FUEL_SS, walk_cons, E0, Hs. apply walk_nil.
 Qed.
 Lemma resolve_cells_none : forall w f a0 ls0,
   obj_at w f 0 = Some (Group a0 ls0) -> assoc "cells"%string ls0 = None ->
   resolve w f ["cells"%string] = Missing false.
 Proof.
-  intros w f a0 ls0 E0 Hs. unfold resolve. change FUEL with (S (S 62)). simpl. now rewrite E0, Hs.
+  intros w f a0 ls0 E0 Hs. unfold resolve. rewrite FUEL_SS, walk_cons, E0, Hs. reflexivity.
 Qed.
-Local Opaque FUEL.
 
 (** the state of /cells before a cell named [name] is appended: no /cells yet, or a group without that name *)
 Definition cell_fresh (w : world) (f : fid) (ls0 : list (string * link)) (name : string) : Prop :=
@@ -235,10 +253,469 @@ Proof.
   - discriminate.
   - discriminate.
   - (* ValueError path: del f[path] must have succeeded, impossible on a fresh name *)
-    exfalso. unfold del_link in H. simpl split_last in H.
+    exfalso. unfold del_link in H. simpl split_last in H. cbv beta iota in H.
     destruct Hfresh as [Hn|(g0 & ac & lsc & Hs & Eg & Hnone)].
     + rewrite (resolve_cells_none _ _ _ _ E0 Hn) in H. discriminate.
     + rewrite (resolve_cells_hard _ _ _ _ _ E0 Hs) in H. rewrite Eg, Hnone in H. discriminate.
   - discriminate.
   - discriminate.
+Qed.
+
+(* ------------------------------------------------------------------ which links a creation can add *)
+Lemma set_obj_lookup_other : forall w f x y o m, y <> x ->
+  lookup_link (set_obj w f x o) f y m = lookup_link w f y m.
+Proof.
+  intros. unfold lookup_link, obj_at, set_obj. destruct (get_store w f) eqn:Es; [|now rewrite Es].
+  rewrite get_set_same. now rewrite nth_error_upd_other by auto.
+Qed.
+
+Lemma bind_lookup_frame : forall w f x n l w' y m, bind w f x n l = Some w' -> (y <> x \/ m <> n) ->
+  lookup_link w' f y m = lookup_link w f y m.
+Proof.
+  unfold bind; intros w f x n l w' y m H Hne.
+  destruct (obj_at w f x) as [[a ls|]|] eqn:Ex; try discriminate.
+  destruct (assoc n ls) eqn:En; try discriminate. injection H as <-.
+  destruct (Nat.eq_dec y x) as [->|N].
+  - destruct Hne as [?|Hm]; [congruence|]. unfold lookup_link. erewrite set_obj_at by eauto.
+    rewrite Ex. apply assoc_ins_other. congruence.
+  - now apply set_obj_lookup_other.
+Qed.
+
+Lemma alloc_lookup_frame : forall w f o w1 t y m x, alloc w f o = (w1, t) -> obj_at w f y = Some x ->
+  lookup_link w1 f y m = lookup_link w f y m /\ y <> t /\ obj_at w1 f y = Some x.
+Proof.
+  unfold alloc; intros w f o w1 t y m x H Ey. unfold lookup_link, obj_at in *.
+  destruct (get_store w f) as [st|] eqn:Es; try discriminate. injection H as <- <-.
+  rewrite get_set_same.
+  assert (y < List.length st)%nat by (apply nth_error_Some; congruence).
+  rewrite nth_error_app1 by auto. rewrite Ey. repeat split; auto. lia.
+Qed.
+
+Lemma bind_obj_other : forall w f x n l w' y o, bind w f x n l = Some w' -> y <> x ->
+  obj_at w f y = Some o -> obj_at w' f y = Some o.
+Proof.
+  unfold bind; intros w f x n l w' y o H N Ey.
+  destruct (obj_at w f x) as [[a ls|]|] eqn:Ex; try discriminate.
+  destruct (assoc n ls); try discriminate. injection H as <-.
+  unfold obj_at, set_obj in *. destruct (get_store w f) eqn:Es; try discriminate.
+  rewrite get_set_same. now rewrite nth_error_upd_other by auto.
+Qed.
+
+Lemma write_cols_frame : forall cols w f t w' y m x, write_cols w f t cols = Some w' ->
+  y <> t -> obj_at w f y = Some x ->
+  lookup_link w' f y m = lookup_link w f y m /\ obj_at w' f y = Some x.
+Proof.
+  induction cols as [|[c src] r IH]; simpl; intros w f t w' y m x H N Ey.
+  - injection H as <-. auto.
+  - destruct src as [d|o].
+    + destruct (alloc w f (Dataset d)) as [w1 o] eqn:Ea.
+      destruct (bind w1 f t c (Hard o)) as [w2|] eqn:Eb; try discriminate.
+      destruct (alloc_lookup_frame _ _ _ _ _ _ m _ Ea Ey) as (A1 & A2 & A3).
+      pose proof (bind_obj_other _ _ _ _ _ _ _ _ Eb N A3) as B3.
+      destruct (IH _ _ _ _ _ m _ H N B3) as (C1 & C3). split; auto.
+      rewrite C1. rewrite (bind_lookup_frame _ _ _ _ _ _ y m Eb) by auto. auto.
+    + destruct (bind w f t c (Hard o)) as [w2|] eqn:Eb; try discriminate.
+      pose proof (bind_obj_other _ _ _ _ _ _ _ _ Eb N Ey) as B3.
+      destruct (IH _ _ _ _ _ m _ H N B3) as (C1 & C3). split; auto.
+      rewrite C1. now rewrite (bind_lookup_frame _ _ _ _ _ _ y m Eb) by auto.
+Qed.
+
+Lemma write_tables_frame : forall ts w f g w' y m x, write_tables w f g ts = Some w' ->
+  y <> g -> obj_at w f y = Some x ->
+  lookup_link w' f y m = lookup_link w f y m /\ obj_at w' f y = Some x.
+Proof.
+  induction ts as [|[n src] r IH]; simpl; intros w f g w' y m x H N Ey.
+  - injection H as <-. auto.
+  - destruct src as [cols|o].
+    + destruct (alloc w f (Group [] [])) as [w1 t] eqn:Ea.
+      destruct (bind w1 f g n (Hard t)) as [w2|] eqn:Eb; try discriminate.
+      destruct (write_cols w2 f t cols) as [w3|] eqn:Ec; try discriminate.
+      destruct (alloc_lookup_frame _ _ _ _ _ _ m _ Ea Ey) as (A1 & A2 & A3).
+      pose proof (bind_obj_other _ _ _ _ _ _ _ _ Eb N A3) as B3.
+      destruct (write_cols_frame _ _ _ _ _ _ m _ Ec A2 B3) as (C1 & C3).
+      destruct (IH _ _ _ _ _ m _ H N C3) as (D1 & D3). split; auto.
+      rewrite D1, C1. rewrite (bind_lookup_frame _ _ _ _ _ _ y m Eb) by auto. auto.
+    + destruct (bind w f g n (Hard o)) as [w2|] eqn:Eb; try discriminate.
+      pose proof (bind_obj_other _ _ _ _ _ _ _ _ Eb N Ey) as B3.
+      destruct (IH _ _ _ _ _ m _ H N B3) as (D1 & D3). split; auto.
+      rewrite D1. now rewrite (bind_lookup_frame _ _ _ _ _ _ y m Eb) by auto.
+Qed.
+
+Lemma set_attrs_lookup : forall w f o b f' y m, lookup_link (set_attrs w f o b) f' y m = lookup_link w f' y m.
+Proof.
+  intros. unfold set_attrs. destruct (obj_at w f o) as [[a ls|d]|] eqn:E; auto.
+  unfold lookup_link. destruct (fid_dec f f') as [<-|Nf].
+  - destruct (Nat.eq_dec o y) as [<-|No].
+    + erewrite set_obj_at by eauto. now rewrite E.
+    + unfold obj_at, set_obj. destruct (get_store w f) eqn:Es; [|now rewrite Es].
+      rewrite get_set_same. now rewrite nth_error_upd_other by auto.
+  - unfold obj_at, set_obj. destruct (get_store w f) eqn:Es; auto. now rewrite get_set_other by auto.
+Qed.
+
+Lemma create_group_frame : forall w f p w' f1 g par n w1 fl f1' gpar xg,
+  create_group w f p = (Ok, w', (f1, g)) -> split_last p = Some (par, n) ->
+  ensure w f 0 par = Some (w1, fl, f1', gpar) -> obj_at w1 f1' gpar = Some xg ->
+  f1 = f1' /\ g <> gpar /\ forall m, m <> n -> lookup_link w' f1' gpar m = lookup_link w1 f1' gpar m.
+Proof.
+  unfold create_group; intros w f p w' f1 g par n w1 fl f1' gpar xg H Hs He Eg.
+  rewrite Hs, He in H.
+  destruct (lookup_link w1 f1' gpar n) eqn:El.
+  { exfalso. injection H as Herr _ _ _. eapply exists_err_not_ok; eauto. discriminate. }
+  destruct (alloc w1 f1' (Group [] [])) as [w2 o] eqn:Ea.
+  destruct (bind w2 f1' gpar n (Hard o)) as [w3|] eqn:Eb; try discriminate.
+  injection H as Hw Hf Hg. subst w3 f1' o.
+  split; auto.
+  destruct (alloc_lookup_frame _ _ _ _ _ _ n _ Ea Eg) as (_ & A2 & _).
+  split; [auto|]. intros m Hm.
+  destruct (alloc_lookup_frame _ _ _ _ _ _ m _ Ea Eg) as (A1 & _ & _).
+  rewrite (bind_lookup_frame _ _ _ _ _ _ gpar m Eb) by auto. exact A1.
+Qed.
+
+Lemma lookup_obj : forall w f t n l, lookup_link w f t n = Some l -> exists x, obj_at w f t = Some x.
+Proof. unfold lookup_link; intros. destruct (obj_at w f t); eauto. discriminate. Qed.
+
+(** the members of /cells after appending one cell: the new name, or a member it had before *)
+Lemma create_cell_keys : forall w f a0 ls0 name sp w' gc,
+  file_exists w f = true -> obj_at w f 0 = Some (Group a0 ls0) -> cell_fresh w f ls0 name ->
+  create w f ["cells"%string; name] false sp = (Ok, w') ->
+  child w' f 0 "cells"%string = Some gc ->
+  forall m l, lookup_link w' f gc m = Some l ->
+    m = name \/ exists g0, assoc "cells"%string ls0 = Some (Hard g0) /\ lookup_link w f g0 m = Some l.
+Proof.
+  intros w f a0 ls0 name sp w' gc Hex E0 Hfresh H Hgc m l Hl.
+  destruct (S.string_dec m name) as [->|Nm]; [left; auto|right].
+  pose proof H as H0. unfold create in H. rewrite Hex in H. simpl orb in H. cbv iota in H.
+  destruct (create_group w f ["cells"%string; name]) as [[e w1] [f1 g]] eqn:Ecg.
+  destruct e; try discriminate.
+  2:{ exfalso. unfold del_link in H. simpl split_last in H. cbv beta iota in H.
+      destruct Hfresh as [Hn|(g0 & ac & lsc & Hs & Eg & Hnone)].
+      - rewrite (resolve_cells_none _ _ _ _ E0 Hn) in H. discriminate.
+      - rewrite (resolve_cells_hard _ _ _ _ _ E0 Hs) in H. rewrite Eg, Hnone in H. discriminate. }
+  destruct (create_group_ok _ _ _ _ _ _ Ecg) as (L & par & n & we & fl & gpar & Hs & He & L1 & Hch).
+  simpl in Hs. injection Hs as <- <-.
+  assert (assoc "cells"%string ls0 = None \/ exists g0, assoc "cells"%string ls0 = Some (Hard g0)) as Hc.
+  { destruct Hfresh as [?|(g0 & ? & ? & ? & _)]; eauto. }
+  destruct (ensure_cells _ _ _ _ _ _ _ _ E0 Hc He) as (-> & Hcells & Hsame).
+  destruct (write_tables w1 f g (cs_tables sp)) as [w2|] eqn:Ew; [|discriminate].
+  injection H as <-.
+  (* gc is the parent group gpar *)
+  assert (gc = gpar) as ->.
+  { destruct (create_cell_spec _ _ _ _ _ _ _ Hex E0 Hfresh H0) as (K & gc' & g' & Hc' & _).
+    assert (child (set_attrs w2 f g (cs_attrs sp)) f 0 "cells"%string = Some gpar) as Hp.
+    { eapply keeps_child; [|exact Hcells].
+      eapply keeps_trans; [apply world_le_keeps; eauto|].
+      eapply keeps_trans; [eapply write_tables_spec; eauto|apply set_attrs_keeps]. }
+    congruence. }
+  rewrite set_attrs_lookup in Hl.
+  (* the parent existed when the cell group was allocated *)
+  assert (exists xg, obj_at we f gpar = Some xg) as [xg Exg].
+  { unfold child in Hcells. destruct (lookup_link we f 0 "cells"%string) as [[o| |]|] eqn:E; try discriminate.
+    injection Hcells as ->.
+    destruct Hfresh as [Hn|(g0 & ac & lsc & Hs & Eg & Hnone)].
+    - (* /cells was just created by ensure: it is the freshly allocated group *)
+      unfold ensure in He. simpl in He. rewrite E0, Hn in He.
+      destruct (alloc w f (Group [] [])) as [wa ga] eqn:Ea. injection He as <- _ <-.
+      unfold obj_at in E0. destruct (get_store w f) as [st|] eqn:Es; try discriminate.
+      destruct (alloc_obj _ _ _ _ _ _ Es Ea) as (-> & Hst & Ho).
+      exists (Group [] []). unfold obj_at, set_obj in *. rewrite Hst. rewrite get_set_same.
+      assert (0 < List.length st)%nat by (apply nth_error_Some; congruence).
+      rewrite nth_error_upd_other by lia.
+      rewrite nth_error_app2 by lia. now rewrite Nat.sub_diag.
+    - destruct (Hsame g0 Hs) as [-> ->]. eauto. }
+  destruct (create_group_frame _ _ _ _ _ _ _ _ _ _ _ _ _ Ecg eq_refl He Exg) as (_ & Ng & Hfr).
+  assert (exists xg1, obj_at w1 f gpar = Some xg1) as [xg1 Exg1].
+  { unfold child in Hch.
+    destruct (lookup_link w1 f gpar name) as [l0|] eqn:El0; try discriminate.
+    eapply lookup_obj; eauto. }
+  destruct (write_tables_frame _ _ _ _ _ gpar m _ Ew (not_eq_sym Ng) Exg1) as (F1 & _).
+  rewrite F1, (Hfr m Nm) in Hl.
+  destruct Hfresh as [Hn|(g0 & ac & lsc & Hs & Eg & Hnone)].
+  - (* fresh /cells group: it has no member at all *)
+    exfalso. unfold ensure in He. simpl in He. rewrite E0, Hn in He.
+    destruct (alloc w f (Group [] [])) as [wa ga] eqn:Ea. injection He as <- _ <-.
+    unfold obj_at in E0. destruct (get_store w f) as [st|] eqn:Es; try discriminate.
+    destruct (alloc_obj _ _ _ _ _ _ Es Ea) as (-> & Hst & Ho).
+    unfold lookup_link, obj_at, set_obj in Hl. rewrite Hst in Hl. rewrite get_set_same in Hl.
+    assert (0 < List.length st)%nat by (apply nth_error_Some; congruence).
+    rewrite nth_error_upd_other in Hl by lia.
+    rewrite nth_error_app2 in Hl by lia. rewrite Nat.sub_diag in Hl. simpl in Hl. discriminate.
+  - destruct (Hsame g0 Hs) as [-> ->]. eauto.
+Qed.
+
+(* ------------------------------------------------------------------ all cells, by induction over the list *)
+(** what "cell c reads back as given" means on the store: /cells/<name> is a group whose chroms table
+    is the root's chroms GROUP rc, whose bins table has the root's three datasets o1 o2 o3 as chrom/start/end
+    plus the cell's own extra columns, and whose pixels and indexes hold exactly the given columns *)
+Definition cell_ok (w : world) (f : fid) (rc o1 o2 o3 : nat) (c : cell) : Prop :=
+  exists gc g, child w f 0 "cells"%string = Some gc /\ child w f gc (c_name c) = Some g /\
+    child w f g "chroms"%string = Some rc /\
+    (exists tb, child w f g "bins"%string = Some tb /\
+                child w f tb "chrom"%string = Some o1 /\ child w f tb "start"%string = Some o2 /\
+                child w f tb "end"%string = Some o3 /\
+                forall k d, In (k, d) (c_extra_bins c) -> ds_at w f tb k = Some d) /\
+    (exists tp, child w f g "pixels"%string = Some tp /\ forall k d, In (k, d) (c_pixels c) -> ds_at w f tp k = Some d) /\
+    (exists ti, child w f g "indexes"%string = Some ti /\ forall k d, In (k, d) (c_indexes c) -> ds_at w f ti k = Some d).
+
+Lemma cell_ok_keeps : forall w w' f rc o1 o2 o3 c, keeps w w' -> cell_ok w f rc o1 o2 o3 c -> cell_ok w' f rc o1 o2 o3 c.
+Proof.
+  intros w w' f rc o1 o2 o3 c K (gc & g & H1 & H2 & H3 & (tb & B1 & B2 & B3 & B4 & B5) & (tp & P1 & P2) & (ti & I1 & I2)).
+  exists gc, g. repeat split; eauto using keeps_child.
+  - exists tb. repeat split; eauto using keeps_child, keeps_ds.
+  - exists tp. split; eauto using keeps_child, keeps_ds.
+  - exists ti. split; eauto using keeps_child, keeps_ds.
+Qed.
+
+Record root_ok (w : world) (f : fid) (rc rb o1 o2 o3 : nat) : Prop := {
+  r_exists : file_exists w f = true;
+  r_chroms : child w f 0 "chroms"%string = Some rc;
+  r_bins : child w f 0 "bins"%string = Some rb;
+  r_c : child w f rb "chrom"%string = Some o1;
+  r_s : child w f rb "start"%string = Some o2;
+  r_e : child w f rb "end"%string = Some o3
+}.
+
+Definition cells_state (w : world) (f : fid) (done : list string) : Prop :=
+  exists a0 ls0, obj_at w f 0 = Some (Group a0 ls0) /\
+    ((done = [] /\ assoc "cells"%string ls0 = None) \/
+     (exists gc ac lsc, assoc "cells"%string ls0 = Some (Hard gc) /\ obj_at w f gc = Some (Group ac lsc) /\
+                        forall m l, assoc m lsc = Some l -> In m done)).
+
+Lemma keeps_exists : forall w w' f, keeps w w' -> file_exists w f = true ->
+  (exists o n l, lookup_link w f o n = Some l) -> file_exists w' f = true.
+Proof.
+  intros w w' f [K _] _ (o & n & l & Hl). specialize (K _ _ _ _ Hl).
+  unfold lookup_link, obj_at, file_exists in *. destruct (get_store w' f); auto. discriminate.
+Qed.
+
+Lemma root_ok_keeps : forall w w' f rc rb o1 o2 o3, keeps w w' -> root_ok w f rc rb o1 o2 o3 -> root_ok w' f rc rb o1 o2 o3.
+Proof.
+  intros w w' f rc rb o1 o2 o3 K [H0 H1 H2 H3 H4 H5].
+  constructor; eauto using keeps_child.
+  eapply keeps_exists; eauto. unfold child in H1.
+  destruct (lookup_link w f 0 "chroms"%string) eqn:E; try discriminate. eauto.
+Qed.
+
+Lemma cell_spec_root : forall w f rc rb o1 o2 o3 c, root_ok w f rc rb o1 o2 o3 ->
+  cell_spec w f c = Some (mkSpec
+     [("chroms"%string, ShareGroup rc);
+      ("bins"%string, Table ([("chrom"%string, Share o1); ("start"%string, Share o2); ("end"%string, Share o3)]
+                             ++ map (fun kv => (fst kv, Fresh (snd kv))) (c_extra_bins c)));
+      ("pixels"%string, Table (map (fun kv => (fst kv, Fresh (snd kv))) (c_pixels c)));
+      ("indexes"%string, Table (map (fun kv => (fst kv, Fresh (snd kv))) (c_indexes c)))]
+     (c_attrs c)).
+Proof. intros w f rc rb o1 o2 o3 c [H0 H1 H2 H3 H4 H5]. unfold cell_spec. now rewrite H1, H2, H3, H4, H5. Qed.
+
+Lemma in_fresh : forall (l : list (string * payload)) k d, In (k, d) l ->
+  In (k, Fresh d) (map (fun kv => (fst kv, Fresh (snd kv))) l).
+Proof. intros l k d H. apply in_map_iff. exists (k, d). auto. Qed.
+
+Theorem append_cells_spec : forall cells w f rc rb o1 o2 o3 done w',
+  root_ok w f rc rb o1 o2 o3 -> cells_state w f done ->
+  NoDup (done ++ map c_name cells) ->
+  append_cells w f cells = (Ok, w') ->
+  keeps w w' /\ (forall c, In c cells -> cell_ok w' f rc o1 o2 o3 c) /\
+  cells_state w' f (done ++ map c_name cells).
+Proof.
+  induction cells as [|c r IH]; intros w f rc rb o1 o2 o3 done w' HR HS Hnd H.
+  - simpl in H. injection H as <-. rewrite app_nil_r. split; [apply keeps_refl|]. split; [intros ? []|auto].
+  - unfold append_cells in H. simpl in H. fold append_cells in H.
+    rewrite (cell_spec_root _ _ _ _ _ _ _ c HR) in H.
+    set (sp := mkSpec _ _) in H.
+    destruct (create w f (cell_path c) false sp) as [e w1] eqn:Ec.
+    destruct e; try discriminate.
+    destruct HS as (a0 & ls0 & E0 & Hst).
+    assert (cell_fresh w f ls0 (c_name c)) as Hfresh.
+    { destruct Hst as [[-> Hn]|(gc & ac & lsc & Hs & Eg & Hkeys)]; [left; auto|right].
+      exists gc, ac, lsc. repeat split; auto.
+      destruct (assoc (c_name c) lsc) eqn:En; auto. exfalso.
+      apply Hkeys in En. simpl in Hnd. apply NoDup_remove_2 in Hnd. apply Hnd.
+      apply in_or_app. auto. }
+    unfold cell_path in Ec.
+    destruct (create_cell_spec _ _ _ _ _ _ _ (r_exists _ _ _ _ _ _ _ HR) E0 Hfresh Ec)
+      as (K1 & gc & g & Hcells & Hcell & Hold & HT).
+    pose proof (create_cell_keys _ _ _ _ _ _ _ gc (r_exists _ _ _ _ _ _ _ HR) E0 Hfresh Ec Hcells) as Hkeys1.
+    (* the state after this cell *)
+    assert (cells_state w1 f (done ++ [c_name c])) as HS1.
+    { unfold child, lookup_link in Hcells, Hcell.
+      destruct (obj_at w1 f 0) as [[a1 ls1|]|] eqn:E1; try discriminate.
+      destruct (assoc "cells"%string ls1) as [[gc'| |]|] eqn:Ea1; try discriminate. injection Hcells as ->.
+      destruct (obj_at w1 f gc) as [[ac1 lsc1|]|] eqn:Eg1; try discriminate.
+      exists a1, ls1. split; auto. right. exists gc, ac1, lsc1. repeat split; auto.
+      intros m l Hm.
+      assert (lookup_link w1 f gc m = Some l) as Hl by (unfold lookup_link; now rewrite Eg1).
+      destruct (Hkeys1 m l Hl) as [->|(g0 & Hg0 & Hl0)]; [apply in_or_app; simpl; auto|].
+      apply in_or_app. left.
+      destruct Hst as [[_ Hn]|(gc0 & ac & lsc & Hs & Eg & Hk)]; [congruence|].
+      rewrite Hs in Hg0. injection Hg0 as <-. unfold lookup_link in Hl0. rewrite Eg in Hl0. eauto. }
+    assert (NoDup ((done ++ [c_name c]) ++ map c_name r)) as Hnd1.
+    { rewrite <- app_assoc. exact Hnd. }
+    destruct (IH w1 f rc rb o1 o2 o3 (done ++ [c_name c]) w' (root_ok_keeps _ _ _ _ _ _ _ _ K1 HR) HS1 Hnd1 H)
+      as (K2 & Hcs & HS2).
+    split; [eapply keeps_trans; eauto|]. split.
+    + intros c' [<-|Hin]; [|auto].
+      eapply cell_ok_keeps; eauto.
+      exists gc, g. split; auto. split; auto.
+      pose proof (HT "chroms"%string _ (or_introl eq_refl)) as T1. simpl in T1.
+      pose proof (HT "bins"%string _ (or_intror (or_introl eq_refl))) as T2. simpl in T2.
+      pose proof (HT "pixels"%string _ (or_intror (or_intror (or_introl eq_refl)))) as T3. simpl in T3.
+      pose proof (HT "indexes"%string _ (or_intror (or_intror (or_intror (or_introl eq_refl))))) as T4. simpl in T4.
+      split; auto. split; [|split].
+      * destruct T2 as (tb & B & HF & HS'). exists tb.
+        split; [exact B|]. split; [apply HS'; simpl; auto|]. split; [apply HS'; simpl; auto|].
+        split; [apply HS'; simpl; auto|].
+        intros k d Hin. apply HF. right. right. right. now apply in_fresh.
+      * destruct T3 as (tp & B & HF & _). exists tp. split; auto. intros k d Hin. apply HF. now apply in_fresh.
+      * destruct T4 as (ti & B & HF & _). exists ti. split; auto. intros k d Hin. apply HF. now apply in_fresh.
+    + simpl. rewrite <- app_assoc in HS2. exact HS2.
+Qed.
+
+(* ------------------------------------------------------------------ sorting the cell names *)
+From Coq Require Import Permutation.
+
+Lemma insert_cell_perm : forall c l, Permutation (insert_cell c l) (c :: l).
+Proof.
+  induction l as [|d r IH]; simpl; auto.
+  destruct (S.leb (c_name c) (c_name d)); auto.
+  eapply perm_trans; [apply perm_skip; exact IH|apply perm_swap].
+Qed.
+
+Lemma sort_cells_perm : forall l, Permutation (sort_cells l) l.
+Proof.
+  induction l as [|c r IH]; simpl; auto.
+  eapply perm_trans; [apply insert_cell_perm|]. now apply perm_skip.
+Qed.
+
+(* ------------------------------------------------------------------ the root of the single-cell file *)
+Lemma write_tables_target_frame : forall ts w f g w' m x, write_tables w f g ts = Some w' ->
+  obj_at w f g = Some x -> ~ In m (map fst ts) ->
+  lookup_link w' f g m = lookup_link w f g m.
+Proof.
+  induction ts as [|[n src] r IH]; simpl; intros w f g w' m x H Eg Hn.
+  - injection H as <-. auto.
+  - assert (m <> n) as Nm by (intro; subst; apply Hn; left; reflexivity).
+    assert (~ In m (map fst r)) as Hr by (intro; apply Hn; right; assumption).
+    destruct src as [cols|o].
+    + destruct (alloc w f (Group [] [])) as [w1 t] eqn:Ea.
+      destruct (bind w1 f g n (Hard t)) as [w2|] eqn:Eb; try discriminate.
+      destruct (write_cols w2 f t cols) as [w3|] eqn:Ec; try discriminate.
+      destruct (alloc_lookup_frame _ _ _ _ _ _ m _ Ea Eg) as (A1 & A2 & A3).
+      destruct (lookup_obj _ _ _ _ _ (bind_lookup _ _ _ _ _ _ Eb)) as (x2 & Ex2).
+      destruct (write_cols_frame _ _ _ _ _ _ m _ Ec A2 Ex2) as (C1 & C3).
+      rewrite (IH _ _ _ _ m _ H C3 Hr), C1.
+      rewrite (bind_lookup_frame _ _ _ _ _ _ g m Eb) by auto. exact A1.
+    + destruct (bind w f g n (Hard o)) as [w2|] eqn:Eb; try discriminate.
+      destruct (lookup_obj _ _ _ _ _ (bind_lookup _ _ _ _ _ _ Eb)) as (x2 & Ex2).
+      rewrite (IH _ _ _ _ m _ H Ex2 Hr).
+      now rewrite (bind_lookup_frame _ _ _ _ _ _ g m Eb) by auto.
+Qed.
+
+Lemma ds_child : forall w f t n d, ds_at w f t n = Some d -> exists o, child w f t n = Some o.
+Proof. unfold ds_at; intros. destruct (child w f t n); eauto. discriminate. Qed.
+
+Lemma del_nothing_on_empty : forall w f names,
+  get_store w f = Some empty_store -> del_if_present w f names = w.
+Proof.
+  intros w f names Es. unfold del_if_present.
+  induction names as [|n r IH]; simpl; auto.
+  assert (contains_b w f [n] = false) as ->; auto.
+  unfold contains_b, contains. simpl. unfold lookup_link, obj_at. rewrite Es. reflexivity.
+Qed.
+
+(** C17 central theorem (mode "w", the default of create_scool): every cell reads back as given, the bin
+    columns chrom/start/end and the chroms table of every cell are the root's own objects, and /cells has
+    no member besides the given names *)
+Theorem create_scool_spec : forall w f rchroms rbins rattrs cells w' dc ds de,
+  create_scool w f true rchroms rbins rattrs cells = (Ok, w') ->
+  NoDup (map c_name cells) ->
+  In ("chrom"%string, dc) rbins -> In ("start"%string, ds) rbins -> In ("end"%string, de) rbins ->
+  exists rc rb o1 o2 o3,
+    root_ok w' f rc rb o1 o2 o3 /\
+    (forall k d, In (k, d) rchroms -> ds_at w' f rc k = Some d) /\
+    (forall k d, In (k, d) rbins -> ds_at w' f rb k = Some d) /\
+    (forall c, In c cells -> cell_ok w' f rc o1 o2 o3 c) /\
+    cells_state w' f (map c_name (sort_cells cells)).
+Proof.
+  intros w f rchroms rbins rattrs cells w' dc ds de H Hnd Hc Hs He.
+  unfold create_scool in H. simpl orb in H. cbv iota in H.
+  set (w0 := set_store w f (Some empty_store)) in *.
+  assert (get_store w0 f = Some empty_store) as Es0 by (unfold w0; apply get_set_same).
+  rewrite (del_nothing_on_empty _ _ _ Es0) in H.
+  set (ts := [("chroms"%string, Table _); ("bins"%string, Table _)]) in H.
+  destruct (write_tables w0 f 0 ts) as [w2|] eqn:Ew; [|discriminate].
+  destruct (write_tables_spec _ _ _ _ _ Ew) as (K2 & HT).
+  pose proof (HT "chroms"%string _ (or_introl eq_refl)) as T1. simpl in T1.
+  pose proof (HT "bins"%string _ (or_intror (or_introl eq_refl))) as T2. simpl in T2.
+  destruct T1 as (rc & Hrc & HFc & _). destruct T2 as (rb & Hrb & HFb & _).
+  destruct (ds_child _ _ _ _ _ (HFb _ _ (in_fresh _ _ _ Hc))) as (o1 & Ho1).
+  destruct (ds_child _ _ _ _ _ (HFb _ _ (in_fresh _ _ _ Hs))) as (o2 & Ho2).
+  destruct (ds_child _ _ _ _ _ (HFb _ _ (in_fresh _ _ _ He))) as (o3 & Ho3).
+  set (w3 := set_attrs w2 f 0 rattrs) in *.
+  assert (keeps w2 w3) as K3 by apply set_attrs_keeps.
+  assert (obj_at w0 f 0 = Some (Group [] [])) as E00 by (unfold obj_at; now rewrite Es0).
+  assert (file_exists w3 f = true) as Hex3.
+  { unfold child in Hrc. destruct (lookup_link w2 f 0 "chroms"%string) eqn:E; try discriminate.
+    destruct K3 as [K3 _]. specialize (K3 _ _ _ _ E).
+    unfold lookup_link, obj_at, file_exists in *. destruct (get_store w3 f); auto. discriminate. }
+  assert (root_ok w3 f rc rb o1 o2 o3) as HR.
+  { constructor; eauto using keeps_child. }
+  assert (cells_state w3 f []) as HS.
+  { assert (lookup_link w3 f 0 "cells"%string = None) as Hn.
+    { unfold w3. rewrite set_attrs_lookup.
+      rewrite (write_tables_target_frame _ _ _ _ _ "cells"%string _ Ew E00).
+      - unfold lookup_link. now rewrite E00.
+      - simpl. intros [E|[E|[]]]; discriminate. }
+    pose proof (r_chroms _ _ _ _ _ _ _ HR) as Hch. unfold child, lookup_link in Hch, Hn.
+    destruct (obj_at w3 f 0) as [[a3 ls3|]|] eqn:E3; try discriminate.
+    exists a3, ls3. split; auto. }
+  pose proof (sort_cells_perm cells) as Hperm.
+  assert (NoDup ([] ++ map c_name (sort_cells cells))) as Hnd'.
+  { simpl. eapply Permutation_NoDup; [|exact Hnd]. apply Permutation_map. now apply Permutation_sym. }
+  destruct (append_cells_spec _ _ _ _ _ _ _ _ _ _ HR HS Hnd' H) as (K4 & Hcells & HS4).
+  exists rc, rb, o1, o2, o3. split; [eapply root_ok_keeps; eauto|].
+  pose proof (keeps_trans _ _ _ K3 K4) as K34.
+  split; [intros k d Hin; apply (keeps_ds w2 w' f rc k d K34); apply HFc; now apply in_fresh|].
+  split; [intros k d Hin; apply (keeps_ds w2 w' f rb k d K34); apply HFb; now apply in_fresh|].
+  split; auto.
+  intros c Hin. apply Hcells. eapply Permutation_in; [apply Permutation_sym; exact Hperm|auto].
+Qed.
+
+(* ------------------------------------------------------------------ witness *)
+Definition ex_cells : list cell :=
+  [mkCell "cellB"%string [("w"%string, PInts [1; 2; 3])]
+          [("bin1_id"%string, PInts [0; 1]); ("bin2_id"%string, PInts [1; 2]); ("count"%string, PInts [4; 5])]
+          [("bin1_offset"%string, PInts [0; 1; 2; 2])] [("format"%string, AStr MAGIC)];
+   mkCell "cell A"%string [("w"%string, PInts [7; 8; 9])]
+          [("bin1_id"%string, PInts []); ("bin2_id"%string, PInts []); ("count"%string, PInts [])]
+          [("bin1_offset"%string, PInts [0; 0; 0; 0])] [("format"%string, AStr MAGIC)]].
+Definition ex_scool : outcome * world :=
+  create_scool world0 FA true
+    [("name"%string, PStrs ["a"%string]); ("length"%string, PInts [30])]
+    [("chrom"%string, PEnum ["a"%string] [0; 0; 0]); ("start"%string, PInts [0; 10; 20]); ("end"%string, PInts [10; 20; 30])]
+    [("format"%string, AStr MAGIC_SCOOL)] ex_cells.
+
+Lemma ex_scool_ok :
+  fst ex_scool = Ok /\
+  list_scool_cells (snd ex_scool) FA = (Ok, [["cells"; "cell A"]; ["cells"; "cellB"]]%string) /\
+  is_scool_file (snd ex_scool) FA = Some true /\
+  resolve (snd ex_scool) FA ["cells"; "cellB"; "bins"; "start"]%string = resolve (snd ex_scool) FA ["bins"; "start"]%string /\
+  resolve (snd ex_scool) FA ["cells"; "cell A"; "bins"; "w"]%string <> resolve (snd ex_scool) FA ["cells"; "cellB"; "bins"; "w"]%string.
+Proof. vm_compute. repeat split; try reflexivity. discriminate. Qed.
+
+(* ------------------------------------------------------------------ append-create in general (C15) *)
+(** creating a collection in append mode at a path whose last name is free keeps every link that could be
+    looked up and every dataset of both files, whatever the outcome of writing the tables *)
+Theorem create_append_frame : forall w f p spec w1 tgt e w',
+  file_exists w f = true -> create_group w f p = (Ok, w1, tgt) ->
+  create w f p false spec = (e, w') -> keeps w w'.
+Proof.
+  intros w f p spec w1 [f1 g] e w' Hex Hcg H. unfold create in H.
+  rewrite Hex in H. simpl orb in H. cbv iota in H.
+  destruct p as [|c r]; [unfold create_group in Hcg; simpl in Hcg; discriminate|].
+  rewrite Hcg in H.
+  destruct (create_group_ok _ _ _ _ _ _ Hcg) as (L & _).
+  destruct (write_tables w1 f1 g (cs_tables spec)) as [w2|] eqn:Ew.
+  - injection H as _ <-. destruct (write_tables_spec _ _ _ _ _ Ew) as (K2 & _).
+    eapply keeps_trans; [apply world_le_keeps; eauto|].
+    eapply keeps_trans; [eauto|apply set_attrs_keeps].
+  - injection H as _ <-. now apply world_le_keeps.
 Qed.
